@@ -341,6 +341,56 @@ func mkStoreTarget(dir string, withFlush bool) target {
 	}
 }
 
+// mkStoreReadTarget: a store with several flushed segments and nothing else going on; its probes are
+// hybrid queries under every fusion kind (the store fans each search out over its segments itself, so a
+// single caller already exercises its internal concurrency; eight callers do so on shared builders' state)
+func mkStoreReadTarget(dir string) target {
+	cfg := comet.DefaultStorageConfig(dir)
+	cfg.MemtableSizeLimit = 300
+	cfg.FlushThreshold = 1 << 60
+	cfg.CompactionInterval = time.Hour
+	cfg.CompactionThreshold = 1000
+	v, _ := comet.NewFlatIndex(4, comet.Euclidean)
+	cfg.VectorIndexTemplate = v
+	cfg.TextIndexTemplate = comet.NewBM25SearchIndex()
+	st, err := comet.OpenPersistentHybridIndex(cfg)
+	if err != nil {
+		panic(err)
+	}
+	for i := 1; i <= 60; i++ {
+		st.AddWithID(uint32(i), vecOf(uint32(i), 4), fmt.Sprintf("common words token%d", i%5), nil)
+		if i%10 == 0 {
+			st.VerifRotate()
+			st.Flush()
+		}
+	}
+	fk := []comet.FusionKind{comet.WeightedSumFusion, comet.ReciprocalRankFusion, comet.MaxFusion, comet.MinFusion}
+	return target{
+		name:  "store_read",
+		close: func() { st.Close() },
+		probe: func(i int) string {
+			q := st.NewSearch().WithK(1 << 20).WithFusionKind(fk[i%4])
+			switch (i / 4) % 4 {
+			case 0:
+				q = q.WithVector(vecOf(uint32(3*i+1), 4)).WithText("common")
+			case 1:
+				q = q.WithVector(vecOf(uint32(i), 4)).WithText(fmt.Sprintf("token%d", i%5), "words")
+			case 2:
+				q = q.WithText("common words")
+			default:
+				q = q.WithVector(vecOf(uint32(i+7), 4))
+			}
+			res, err := q.Execute()
+			if i%4 == 1 && err == nil {
+				// reciprocal-rank fusion breaks ties between equal scores by map order: its answers are not
+				// reproducible even sequentially, so they are executed (for the race detector) but not compared
+				return "rrf"
+			}
+			return fingerprintHyb(res, err)
+		},
+	}
+}
+
 func stress(tg target, kindCode int, r *rand.Rand, goroutines, opsPer int, checkVisibility bool, t *Trace) {
 	rec := &concRec{}
 	var wg sync.WaitGroup
@@ -580,6 +630,18 @@ func genC11(r *rand.Rand, t *Trace, thorough bool) {
 		os.RemoveAll(d2)
 		stress(mkStoreTarget(d2, true), 9, r, gs[r.Intn(len(gs))], opsPer, false, t)
 		os.RemoveAll(d2)
+		storeCaseCounter++
+		d3 := filepath.Join(work, "stores", fmt.Sprintf("x%d_%d", os.Getpid(), storeCaseCounter))
+		os.RemoveAll(d3)
+		{
+			tg := mkStoreReadTarget(d3)
+			for i := 0; i < 16; i++ {
+				tg.probe(i) // warm-up: every segment is loaded before the answers are recorded
+			}
+			readPhase(tg, 10, r, opsPer, t)
+			tg.close()
+		}
+		os.RemoveAll(d3)
 		// automatically generated ids: unique across goroutines and across index instances
 		{
 			var mu sync.Mutex
